@@ -244,18 +244,23 @@ class Recognizer(IRecognizer):
                 return set(), (message, [])
 
         else:
+            # an explicit tag naming this class is fine too, as for
+            # classes that are written as a mapping
+            own_tag = '!{}'.format(expected_type.__name__)
             if issubclass(expected_type, enum.Enum):
                 if (
                         not isinstance(node, yaml.ScalarNode)
                         or node.tag not in (
-                            'tag:yaml.org,2002:str', 'tag:yaml.org,2002:bool')
+                            'tag:yaml.org,2002:str', 'tag:yaml.org,2002:bool',
+                            own_tag)
                         ):
                     message = '{}Expected a string matching {}'.format(
                         loc_str, type_to_desc(expected_type))
                     return set(), (message, [])
             elif is_string_like(expected_type):
                 if (not isinstance(node, yaml.ScalarNode)
-                        or node.tag != 'tag:yaml.org,2002:str'):
+                        or node.tag not in (
+                            'tag:yaml.org,2002:str', own_tag)):
                     message = '{}Expected a string matching {}'.format(
                         loc_str, type_to_desc(expected_type))
                     return set(), (message, [])
